@@ -744,10 +744,15 @@ def check_api(ctx, case, lib, texts, single, ref):
     mdir, ldir, sdir = base / "model", base / "lib", base / "single"
     for d in (mdir, ldir, sdir):
         d.mkdir(parents=True)
-    fname = {}
+    fname = {}  # unique names (one folder holds all files on the tools/compiler.py path)
+    aname = {}  # names numbered per folder on the API path: the model folder and the library folder both
+    counts = {True: 0, False: 0}  # start with package.mo, part1.mo, .. (same base names in two folders)
     for k, t in enumerate(texts):
         fname[k] = ("package.mo" if k == 0 else "part%d.mo" % k)
-        ((ldir if spec["lib"][k] else mdir) / fname[k]).write_text(t, encoding="utf-8")
+        inlib = bool(spec["lib"][k])
+        aname[k] = "package.mo" if counts[inlib] == 0 else "part%d.mo" % counts[inlib]
+        counts[inlib] += 1
+        ((ldir if inlib else mdir) / aname[k]).write_text(t, encoding="utf-8")
     (sdir / "whole.mo").write_text(single, encoding="utf-8")
     use_lib = any(spec["lib"])
 
@@ -772,8 +777,8 @@ def check_api(ctx, case, lib, texts, single, ref):
         for pno, perm in enumerate(spec["perms"]):
             if perm in spec["perms"][:pno]:
                 continue
-            mfiles = [fname[k] for k in perm if not spec["lib"][k]]
-            lfiles = [fname[k] for k in perm if spec["lib"][k]]
+            mfiles = [aname[k] for k in perm if not spec["lib"][k]]
+            lfiles = [aname[k] for k in perm if spec["lib"][k]]
             listing = {str(mdir.resolve()): mfiles}
             if use_lib:
                 listing[str(ldir.resolve())] = lfiles
@@ -825,6 +830,8 @@ def check_api(ctx, case, lib, texts, single, ref):
     labels = ["api_path"]
     if use_lib:
         labels.append("api_library_folder")
+        if len(set(aname.values())) < len(aname):
+            labels.append("api_same_base_name_in_two_folders")
         if spec["lib"][0]:
             labels.append("api_own_file_in_library_folder")
     if "exception" in want:
